@@ -1396,4 +1396,94 @@ theorem sim_main (S : Schema) (D : Document) (fuel : Nat) : SimComplete S D fuel
     exact ⟨simComplete_succ S D fuel ih.1 ih.2, simSelections_succ S D fuel ih.1⟩
 
 
+/-! ### GetOperation -/
+
+def opMatches (opName : String) (op : Op) : Bool := opName == "" || op.name == some opName
+
+theorem getOperation_go_eq (opName : String) (ops : List Op) (found : Option Op) :
+    getOperation.go opName ops found =
+      match found, ops.filter (opMatches opName) with
+      | none, [] => .error { msg := .noOp, path := [], locs := [] }
+      | none, [op] => .ok op
+      | none, _ :: op2 :: _ => .error { msg := .multipleOps, path := [], locs := [op2.pos] }
+      | some f, [] => .ok f
+      | some _, m :: _ => .error { msg := .multipleOps, path := [], locs := [m.pos] } := by
+  induction ops generalizing found with
+  | nil => cases found <;> rfl
+  | cons op rest ih =>
+    by_cases hm : opMatches opName op = true
+    · have hm' : (opName == "" || op.name == some opName) = true := hm
+      simp only [getOperation.go, hm', if_true, List.filter_cons, hm]
+      cases found with
+      | some f => rfl
+      | none =>
+        simp only
+        rw [ih]
+        cases List.filter (opMatches opName) rest <;> rfl
+    · have hm' : (opName == "" || op.name == some opName) = false := by simpa [opMatches] using hm
+      have hm'' : opMatches opName op = false := by simpa using hm
+      simp only [getOperation.go, hm', Bool.false_eq_true, if_false, List.filter_cons, hm'']
+      exact ih found
+
+theorem filter_all_true (ops : List Op) : ops.filter (opMatches "") = ops := by
+  induction ops with
+  | nil => rfl
+  | cons op rest ih => simp [List.filter_cons, opMatches, ih]
+
+theorem filter_named (opName : String) (h : opName ≠ "") (ops : List Op) :
+    ops.filter (opMatches opName) = ops.filter (fun op => decide (op.name = some opName)) := by
+  induction ops with
+  | nil => rfl
+  | cons op rest ih =>
+    have h1 : (opName == "") = false := by simpa using h
+    have : opMatches opName op = decide (op.name = some opName) := by
+      simp only [opMatches, h1, Bool.false_or]
+      by_cases e : op.name = some opName
+      · simp [e]
+      · simp [e]
+    simp only [List.filter_cons, this, ih]
+
+/-- The executor's `GetOperation` selects an operation exactly when the specification's does, and the
+    same one; otherwise it reports one error without a path. -/
+theorem getOperation_agree (D : Document) (opName : String) :
+    (∀ op, Spec.getOperation D opName = some op → getOperation D opName = .ok op) ∧
+    (Spec.getOperation D opName = none → ∃ e, getOperation D opName = .error e ∧ e.path = []) := by
+  unfold getOperation Spec.getOperation
+  rw [getOperation_go_eq]
+  by_cases hn : opName = ""
+  · subst hn
+    simp only [filter_all_true, if_true]
+    constructor
+    · intro op h
+      cases hops : D.ops with
+      | nil => simp [hops] at h
+      | cons a l =>
+        cases l with
+        | nil => simp [hops] at h; simp [h]
+        | cons b l' => simp [hops] at h
+    · intro h
+      cases hops : D.ops with
+      | nil => exact ⟨_, rfl, rfl⟩
+      | cons a l =>
+        cases l with
+        | nil => simp [hops] at h
+        | cons b l' => exact ⟨_, rfl, rfl⟩
+  · simp only [hn, if_false, filter_named opName hn]
+    constructor
+    · intro op h
+      cases hops : D.ops.filter (fun op => decide (op.name = some opName)) with
+      | nil => simp [hops] at h
+      | cons a l =>
+        cases l with
+        | nil => simp [hops] at h; simp [h]
+        | cons b l' => simp [hops] at h
+    · intro h
+      cases hops : D.ops.filter (fun op => decide (op.name = some opName)) with
+      | nil => exact ⟨_, rfl, rfl⟩
+      | cons a l =>
+        cases l with
+        | nil => simp [hops] at h
+        | cons b l' => exact ⟨_, rfl, rfl⟩
+
+
 end ApiFu.C01
